@@ -35,6 +35,14 @@ def lineage_contract(variant, cls, rules, props):
     c.setup(setup)
     n = len(rules)
     c.ensures('len(self.repeat_rules) == %d and len(self.c_repeat_rules) == %d' % (n, n), label='each-rule-registered-once')
+    # each rule carries ITS OWN frequency: the one written in its tuple, "repeated" (flag -1) when the tuple has none - whatever the
+    # frequencies of the rules listed before it (seed C09-d let a 2-tuple inherit the frequency of the preceding 3-tuple)
+    FLAG = {'repeated': -1.0, 'repeat': -1.0, 'dt': -2.0, 'start': 0.0}
+    for i, r in enumerate(rules):
+        want = FLAG.get(r[2], None) if len(r) == 3 else -1.0
+        if want is None:
+            want = float(r[2])
+        c.ensures('self.repeat_rules[%d].frequency_flag == %r' % (i, want), label='rule-%d-has-its-own-frequency' % i)
     c.ensures('reinitialise(self) and len(self.c_repeat_rules) == %d and len(self.c_propensities) == 1 and len(self.c_delays) == 1' % n,
               label='re-initialisation-does-not-duplicate')
     c.opt(verify_only=True)
@@ -44,9 +52,14 @@ def lineage_contract(variant, cls, rules, props):
 
 R1 = [('additive', {'equation': 'C = A + B'})]
 R2 = [('additive', {'equation': 'C = A + B'}), ('additive', {'equation': 'B = A + A'}, 'dt')]
+R3 = [('additive', {'equation': 'B = A + A'}, 'dt'), ('additive', {'equation': 'C = A + B'})]
+R4 = [('additive', {'equation': 'B = A + A'}, '1.5'), ('additive', {'equation': 'C = A + B'}), ('additive', {'equation': 'B = A + A + A'}, 'start'),
+      ('additive', {'equation': 'C = A'})]
 for cls in ('Model', 'LineageModel'):
     lineage_contract('rules-registered:1', cls, R1, ['C09', 'C08'])
     lineage_contract('rules-registered:2', cls, R2, ['C09', 'C08'])
+    lineage_contract('rules-registered:scheduled-then-default', cls, R3, ['C09', 'C08'])
+    lineage_contract('rules-registered:mixed-frequencies', cls, R4, ['C09', 'C08'])
 
 
 # ---- lineage features (events, rules, splitters) are registered exactly once, in registration order, whatever the history of
